@@ -219,7 +219,14 @@ func (m *collection) mergerWaitForWork(pings []ping) (
 
 	// A non-nil stackDirtyTop always holds work, even without top-level
 	// segments: the batch might have only touched child collections.
-	if m.stackDirtyTop == nil {
+	//
+	// A stackDirtyMid that could not be handed to the persister because
+	// it was still busy is work, too, once the persister is done: the
+	// persister only wakes a merger that is already asleep when it looks.
+	midWaitsForPersister := m.options.LowerLevelUpdate != nil &&
+		m.stackDirtyBase == nil && m.stackDirtyMid != nil
+
+	if m.stackDirtyTop == nil && !midWaitsForPersister {
 		m.waitDirtyIncomingCh = make(chan struct{})
 		waitDirtyIncomingCh = m.waitDirtyIncomingCh
 	}
